@@ -30,7 +30,11 @@ import gen_c13
 from vlib import Ctx
 
 PROPERTY = "C13"
-LEAN_TARGETS = ["Ipv8.C13.Props"]
+import sys as _sys
+
+# the theorems over the heavy kernel tables (PropsThorough.lean) are built and re-proved in the thorough tier only
+LEAN_TARGETS = ["Ipv8.C13.Props"] + (["Ipv8.C13.PropsThorough"] if "thorough" in _sys.argv[1:] else [])
+LEANCHECKER_MODULES = ["Ipv8.C13.PropsThorough"] if "thorough" in _sys.argv[1:] else []
 PROPS_FILE = "Ipv8/C13/Props.lean"
 DRIVER = "drv_c13"
 RULE = ("scripted introductions: NAT type of requester x of introduced peer (4x4) x placement {public, different NATs, same "
@@ -1553,11 +1557,14 @@ CLASSES = {
 }
 
 
-def table_cfgs(rng, variants: int, placements=PLACEMENTS, history="normal", styles=("old", "new"), klass="std"):
-    for tR in TYPES:
-        for tP in TYPES:
-            for pl in placements:
-                for style in styles:
+def table_cfgs(rng, variants: int, placements=PLACEMENTS, history="normal", styles=("old", "new"), klass="std",
+               thin: bool = False):
+    """every (requester type, introduced type, placement, style); `thin` (quick tier): one of the two styles per
+    (types, placement), alternating — every NAT type pair x placement still occurs, each style in half of them"""
+    for a, tR in enumerate(TYPES):
+        for b, tP in enumerate(TYPES):
+            for c, pl in enumerate(placements):
+                for style in (styles if not thin or len(styles) == 1 else (styles[(a + b + c) % 2],)):
                     for _v in range(variants):
                         yield {"klass": klass,
                                "tR": tR, "tP": tP, "placement": pl, "style": style, "history": history,
@@ -1575,13 +1582,15 @@ def run(ctx: Ctx):
     use_model = ctx.model_ok
     lan_table_check(ctx, use_model, batch)
     # every way the introducer can have learned the candidates (HISTORIES) x the whole configuration table
+    quick = not ctx.thorough()
     for hist in HISTORIES:
-        for cfg in table_cfgs(ctx.rng, ctx.scale(1, 4), history=hist):
+        # quick: the normal history over the whole table, the other four thinned (one style per types x placement)
+        for cfg in table_cfgs(ctx.rng, ctx.scale(1, 4), history=hist, thin=quick and hist != "normal"):
             scripted(ctx, cfg, use_model, batch)
             if len(batch) >= 200:
                 flush(ctx, batch)
     for klass, (pls, styles) in CLASSES.items():
-        for cfg in table_cfgs(ctx.rng, ctx.scale(1, 3), placements=pls, styles=styles, klass=klass):
+        for cfg in table_cfgs(ctx.rng, ctx.scale(1, 3), placements=pls, styles=styles, klass=klass, thin=quick):
             scripted(ctx, cfg, use_model, batch)
             if len(batch) >= 200:
                 flush(ctx, batch)
@@ -1602,7 +1611,7 @@ def run(ctx: Ctx):
                         ctx.count("exhaustive-scope")
                         if len(batch) >= 200:
                             flush(ctx, batch)
-    for _ in range(ctx.scale(60, 2000)):
+    for _ in range(ctx.scale(40, 2000)):
         random_history(ctx, ctx.rng.randrange(1 << 30), use_model, batch)
         if len(batch) >= 200:
             flush(ctx, batch)
@@ -1639,15 +1648,10 @@ def sample_trace(ctx: Ctx):
 
 def search(ctx: Ctx, reason: str):
     """implementation-only, after an obligation broke and the normal run found nothing: the tables once more with fresh
-    variants.  A fixed number of cases (every class once, two histories of the table once: about a minute)."""
+    variants.  A fixed number of cases (every scripted class once, thinned: well under a minute)."""
     lan_table_check(ctx, False, [])
     for klass, (pls, styles) in CLASSES.items():
-        for cfg in table_cfgs(ctx.rng, 1, placements=pls, styles=styles, klass=klass):
-            scripted(ctx, cfg, False, [])
-            if len(ctx.failures) >= 20:
-                return
-    for hist in ("normal", "repeat"):
-        for cfg in table_cfgs(ctx.rng, 1, history=hist):
+        for cfg in table_cfgs(ctx.rng, 1, placements=pls, styles=styles, klass=klass, thin=True):
             scripted(ctx, cfg, False, [])
             if len(ctx.failures) >= 20:
                 return
